@@ -1,8 +1,10 @@
-(* Decision translator: the DATA conditions of the release operations (status tests,
+(* Decision translator: the DATA decisions of the release operations (status tests,
    IsPending, revision and length comparisons, the max-history arithmetic, hook event / delete
    policy / resource-policy tests) are read out of pkg/action, pkg/storage and pkg/release with
-   go/ast on every check run (Gen/ActionDecisions.v) and proved EQUIVALENT, for all
-   environments, to the conditions on which the model programs of Engine/Ops.v branch.
+   go/ast on every check run (Gen/ActionDecisions.v) -- as the PATH CONDITION under which each
+   guarded thing happens (a return with a given error, a call, an append, an assignment) --
+   and proved EQUIVALENT, for all environments, to the path conditions of the corresponding
+   branches of the model programs of Engine/Ops.v.
    Property theorems only.  This file is Required by Props/C01.v, C03.v, C09.v and C13.v, so a
    change of meaning of one of those conditions breaks their proof obligations on every run,
    whatever the generator reaches; a behaviour-preserving rewrite does not.
@@ -15,39 +17,43 @@ From Helm Require Values.Reuse Values.ReuseDecisions.
 Import ListNotations.
 Local Open Scope string_scope.
 
-(* 1. Structure.  The functions the translator tracks are the functions of the model's table,
-      in the same order, and each has as many data conditions as the table lists (a new
-      condition on release data in one of them, or a removed one, shows here). *)
-Theorem decisions_same_shape :
-  map (fun fl => (fst fl, List.length (snd fl))) sites
-  = map (fun fl => (fst fl, List.length (snd fl))) decisions.
-Proof. exact decisions_shape. Qed.
-Print Assumptions decisions_same_shape.
-
-(* 2. Meaning.  For every site that the table ties to a condition c of the model (43 of 61;
-      the others are listed with the reason why they lie outside the model): the Go source
-      has a condition at that position of that function, and FOR ALL environments m -- every
-      status, event, policy, boolean, every integer (no window; [env_wf]: only the values of
-      Go's builtin len are taken to be non-negative), every string -- the
-      interpreter evaluates the extracted expression, and to exactly c m.  [deval] has no
-      default: an ill-typed expression, an unknown constant or a fragment the translator
-      could not read ([DUnknown]) evaluates to None and fails this. *)
-Theorem decision_site_agrees :
-  forall (f : string) (n : nat) (lbl : string) (c : menv -> bool),
-    nth_error (sites_of sites f) n = Some (Modelled lbl c) ->
-    exists (kind : string) (g : dexp),
-      nth_error (sites_of decisions f) n = Some (kind, g) /\
-      forall m : menv, env_wf m -> deval m g = Some (VB (c m)).
-Proof. exact decision_site_agrees_lemma. Qed.
-Print Assumptions decision_site_agrees.
+(* 1. Meaning.  For every GUARDED ITEM that the model lists for a tracked Go function -- a
+      return identified by the error it returns, a call identified by its callee, an append
+      to a collection, an assignment to a field, a `break`, a predicate (filter closure, search
+      loop / slices.Contains[Func], boolean function), the value of an integer local -- the
+      generated table has an item with that key, and its PATH CONDITION (the conjunction of the
+      enclosing conditions, negated for else-branches and for the guards of preceding early
+      exits; disjunction over the occurrences of the item) evaluates, FOR ALL environments m --
+      every status, event, policy, boolean, every integer (no window; [env_wf]: only the
+      values of Go's builtin len are taken to be non-negative), every string -- that meet the
+      function's stated assumptions, to exactly the model's path condition at m.  So the number,
+      nesting, order and polarity of the syntactic conditions are free, their meaning is not.
+      [deval] has no default: an ill-typed expression, an unknown constant or a fragment the
+      translator could not read ([DUnknown], also for a missing item) evaluates to None and
+      fails this; an unreadable boolean ([DOpaque]) is an unconstrained atom. *)
+Theorem decision_item_agrees :
+  forall (fm : fmodel) (k : string) (it : mitem),
+    In fm model -> In (k, it) (fn_items fm) ->
+    forall m : menv, env_wf m -> all_hold m (map fst (fn_pre fm)) ->
+      deval m (go_item decisions (fn_name fm) k) = Some (mvalue it m).
+Proof. exact decision_item_agrees_lemma. Qed.
+Print Assumptions decision_item_agrees.
 
 (* the same, as one statement over the table (what the per-function lemmas of
    Engine/DecisionsProofs.v prove, one lemma per Go function) *)
 Theorem decisions_match_model :
-  map fst sites = map fst decisions /\
-  Forall (fun f => sites_ok (sites_of sites f) (map snd (sites_of decisions f))) (map fst sites).
+  Forall (fun fm => items_ok decisions (fn_name fm) (map fst (fn_pre fm)) (fn_items fm)) model.
 Proof. exact decisions_table_ok. Qed.
 Print Assumptions decisions_match_model.
+
+(* 2. The assumptions (the part of a Go function's environment the model does not have: calls
+      that do not fail in the model, options and validations outside it, integers it keeps in
+      nat; each listed with its reason in Engine/DecisionsModel.v) are satisfiable: the
+      all-default environment meets those of every function. *)
+Theorem decision_assumptions_satisfiable :
+  env_wf env0 /\ Forall (fun fm => all_hold env0 (map fst (fn_pre fm))) model.
+Proof. exact (conj env0_wf assumptions_satisfiable_lemma). Qed.
+Print Assumptions decision_assumptions_satisfiable.
 
 (* 3. The named conditions are the conditions of Engine/Ops.v.  Every program of Ops.v that
       contains a site equals -- effect for effect, for every answer of storage and cluster;
@@ -78,6 +84,15 @@ Theorem rollback_branches_on_sites :
   forall rn ns fl, peqR eq (rollback rn ns fl) (rollback_d rn ns fl).
 Proof. exact rollback_is. Qed.
 Print Assumptions rollback_branches_on_sites.
+
+(* the revision rollback goes to: the model computes it in nat, Go in int ("val
+   previousVersion"); they agree for every stored revision number (>= 1) *)
+Theorem rollback_target_on_sites :
+  forall v cur : nat, 1 <= cur ->
+    Z.of_nat (match v with 0 => cur - 1 | _ => v end)
+    = v_rb_prev (set_n "opt.Version" (Z.of_nat v) (set_n "Last.version" (Z.of_nat cur) env0)).
+Proof. exact rollback_prev_is. Qed.
+Print Assumptions rollback_target_on_sites.
 
 Theorem uninstall_branches_on_sites :
   forall fl, peqR eq (uninstall fl) (uninstall_d fl).
@@ -121,12 +136,18 @@ Theorem orders_and_filters_on_sites :
     Nat.leb (rev r) (rev x) = negb (rev_less x r) /\
     Nat.ltb (rev m) (rev r) = rev_less m r /\
     manifest_keep rs = manifest_keep_d rs /\
+    manifest_keep rs =
+      p_keep (set_n "len(each(arg1).head.metadata.annotations)" (match aget policy_key (r_fields rs) with Some _ => 1%Z | None => 0%Z end)
+             (set_b "has(each(arg1).head.metadata.annotations[helm.sh/resource-policy])"
+                    (match aget policy_key (r_fields rs) with Some _ => true | None => false end)
+             (set_str "ToLower(TrimSpace(each(arg1).head.metadata.annotations[helm.sh/resource-policy]))"
+                    (match aget policy_key (r_fields rs) with Some v => to_lower (trim_space v) | None => "" end) env0))) /\
     owned_by rel_name rel_ns f
     = require_value_d managed_by_key "Helm" f && require_value_d rel_name_key rel_name f
       && require_value_d rel_ns_key rel_ns f.
 Proof.
   intros. exact (conj (insert_by_rev_less r x) (conj (max_rev_of_less m r) (conj (manifest_keep_is rs)
-                (owned_by_is rel_name rel_ns f)))).
+                (conj (manifest_keep_is_item rs) (owned_by_is rel_name rel_ns f))))).
 Qed.
 Print Assumptions orders_and_filters_on_sites.
 
@@ -150,39 +171,54 @@ Proof. exact Values.ReuseDecisions.current_idx_on_sites. Qed.
 Print Assumptions reuse_current_branches_on_sites.
 
 (* 4. Not vacuous, not syntactic. *)
-Example decisions_site_counts :
-  List.length (List.concat (map snd sites)) = 61 /\
-  List.length (filter modelled (List.concat (map snd sites))) = 43 /\ List.length sites = 32.
-Proof. exact site_counts. Qed.
-Print Assumptions decisions_site_counts.
+Example decisions_model_counts :
+  List.length model = 22 /\ List.length (List.concat (map fn_items model)) = 52 /\
+  List.length (List.concat (map fn_pre model)) = 34.
+Proof. exact model_counts. Qed.
+Print Assumptions decisions_model_counts.
 
-(* widening `lastRelease.Info.Status == release.StatusDeployed` (prepareUpgrade) by
-   `|| … == release.StatusFailed` is told apart by an environment *)
+(* prepareUpgrade: "ask the storage for the deployed revision" with the test
+   `lastRelease.Info.Status == release.StatusDeployed` widened by `|| … == release.StatusFailed`
+   is told apart by an environment *)
 Example decisions_reject_widened :
-  exists m, deval m (DOr (DEq (DVar TS "Last.status") (DStatus "deployed"))
-                         (DEq (DVar TS "Last.status") (DStatus "failed")))
-            <> Some (VB (c_up_last_deployed m)).
+  exists m, env_wf m /\
+    deval m (DAnd (DNot (DIsPending (DVar TS "Last.status")))
+                  (DNot (DOr (DEq (DVar TS "Last.status") (DStatus "deployed"))
+                             (DEq (DVar TS "Last.status") (DStatus "failed")))))
+    <> Some (VB (p_up_ask_deployed m)).
 Proof. exact rejects_widened_lemma. Qed.
 Print Assumptions decisions_reject_widened.
 
 (* `len(h) <= maximum` (removeLeastRecent) off by one *)
 Example decisions_reject_off_by_one :
-  exists m, deval m (DLt (DVar TN "len(History)") (DVar TN "arg2")) <> Some (VB (c_rlr_fits m)).
+  exists m, env_wf m /\
+    deval m (DNot (DLt (DVar TN "len(History)") (DVar TN "arg2"))) <> Some (VB (p_rlr_prune m)).
 Proof. exact rejects_off_by_one_lemma. Qed.
 Print Assumptions decisions_reject_off_by_one.
 
+(* what the translator cannot read is never accepted: neither an unreadable expression nor a
+   condition with an unreadable boolean operand the model does not name *)
 Example decisions_reject_unknown :
-  forall c txt, ~ (forall m : menv, env_wf m -> deval m (DUnknown txt) = Some (VB (c m))).
-Proof. intros c txt. exact (rejects_unknown_lemma c txt). Qed.
+  (forall it txt, ~ (forall m : menv, env_wf m -> all_hold m [] -> deval m (DUnknown txt) = Some (mvalue it m))) /\
+  ~ (forall m : menv, env_wf m -> all_hold m [] ->
+       deval m (DOr (DIsPending (DVar TS "Last.status")) (DOpaque "somethingElse(rel)")) = Some (VB (c_up_pending m))).
+Proof. exact (conj rejects_unknown_lemma rejects_opaque_lemma). Qed.
 Print Assumptions decisions_reject_unknown.
 
-(* IsPending as a switch with the cases in another order; `len(h) <= maximum` as
-   `!(maximum < len(h))`: both accepted (the second for all integers) *)
+(* accepted: the nested selection of removeLeastRecent flattened into one inverted guard with
+   `continue` (harmless/C01-H1); IsPending as a switch with the cases in another order;
+   `len(h) <= maximum` negated as `maximum < len(h)` -- for all integers *)
 Example decisions_accept_rewritten :
-  (forall m : menv, env_wf m ->
-     deval m (DIf (DIn (DVar TS "recv") [DStatus "pending-rollback"; DStatus "pending-install"; DStatus "pending-upgrade"])
-                  (DBool true) (DBool false)) = Some (VB (c_is_pending m))) /\
-  (forall m : menv, env_wf m ->
-     deval m (DNot (DLt (DVar TN "arg2") (DVar TN "len(History)"))) = Some (VB (c_rlr_fits m))).
-Proof. exact (conj accepts_switch_lemma accepts_de_morgan_lemma). Qed.
+  (forall m : menv, env_wf m -> all_hold m [ANonNeg "arg2"] ->
+     deval m (DAnd (DAnd (DNot (DLe (DVar TN "len(History)") (DVar TN "arg2")))
+                         (DNot (DEq (DSub (DVar TN "len(sorted(History))") (DVar TN "len(toDelete)")) (DVar TN "arg2"))))
+                   (DNot (DAnd (DNot (DNil "Deployed"))
+                               (DEq (DVar TN "each(sorted(History)).version") (DVar TN "Deployed.version")))))
+     = Some (VB (p_rlr_pick m))) /\
+  (forall m : menv, env_wf m -> all_hold m [] ->
+     deval m (DIn (DVar TS "recv") [DStatus "pending-rollback"; DStatus "pending-install"; DStatus "pending-upgrade"])
+     = Some (VB (c_is_pending m))) /\
+  (forall m : menv, env_wf m -> all_hold m [] ->
+     deval m (DLt (DVar TN "arg2") (DVar TN "len(History)")) = Some (VB (p_rlr_prune m))).
+Proof. exact (conj accepts_flattened_lemma (conj accepts_switch_lemma accepts_de_morgan_lemma)). Qed.
 Print Assumptions decisions_accept_rewritten.
